@@ -146,7 +146,7 @@ def iobs (x : Inst.St) (i : Nat) : String :=
     | none => "?"
   let sorted := (x.handed.toArray.qsort (fun a b => a.1 < b.1 || (a.1 == b.1 && a.2 < b.2))).toList
   let hs := sorted.map fun (t, m) => s!"{t}:{m}"
-  s!"pc={pc} created={Util.showNatList x.created} handed={if hs.isEmpty then "-" else ",".intercalate hs}"
+  s!"pc={pc} created={Util.showNatList x.created} handed={if hs.isEmpty then "-" else ",".intercalate hs} dropped={x.dropped.length}"
 
 /-- run every thread that sits at `lookup` once (the flush goroutine re-enters `TransmitMsg` for
 each drained message right away) -/
@@ -243,6 +243,14 @@ def step (s : State) (toks : List String) : State × String :=
             | none => acc) x1
           ({ s with inst := x2 }, iobs x2 i)
         | none => (s, "disabled")
+      | none => (s, "disabled")
+    | none => (s, "bad-op")
+  -- the registered instance of `tok` declares itself done
+  | ["idone", tok] =>
+    match tok.toNat? with
+    | some tok =>
+      match Inst.step s.inst (.done tok) with
+      | some x1 => ({ s with inst := x1 }, iobs x1 x1.thr.length)
       | none => (s, "disabled")
     | none => (s, "bad-op")
   -- sending side: `send <parents: -,0,0,1,…> <me> <to:j|children|childrenpar|parent|bcast|multi:j,k>` answers the
